@@ -106,7 +106,12 @@ type verifBbr struct {
 	// the replay); later calls of the same trace are a consequence.  At most 25 per run.
 	traceFailed bool
 	reported    int
+	// coreOnly: component `bbrfat` — the control logic is replayed with RECORDED sampler outputs
+	// (driver `bbrcore`) and the sampler state is not printed
+	coreOnly bool
 }
+
+func NewVerifBbrFat() vh.Component { return &verifBbr{clk: &vClock{}, rtt: &vRTT{}, coreOnly: true} }
 
 func (c *verifBbr) limit(orc []string) []string {
 	if len(orc) == 0 {
@@ -166,7 +171,53 @@ func (c *verifBbr) state() string {
 		int64(b.bytesLostWhileDetectingOvershooting), int64(b.cwndToCalculateMinPacingRate),
 		int64(b.maxCongestionWindowWithNetworkParametersAdjusted), int64(b.maxDatagramSize), int64(b.bytesInFlight))
 	fmt.Fprintf(&sb, " | %d %d %s", int64(b.GetCongestionWindow()), int64(b.bandwidthForPacer()), b01(b.CanSend(0)))
+	if !c.coreOnly {
+		sb.WriteString(" | ")
+		sb.WriteString(c.samplerState())
+	}
 	return sb.String()
+}
+
+// samplerState prints the observable state of the bandwidth sampler, its ack-height tracker and the
+// sender's max-bandwidth filter (positional; legend in lean/Hy/Drv/Bbr.lean `showSampler`).
+func (c *verifBbr) samplerState() string {
+	b := c.b
+	sm := b.sampler
+	var sb strings.Builder
+	q := sm.connectionStateMap
+	fmt.Fprintf(&sb, "%d %d %d %d %d %d %d %d %s %d %d %d %d %d %d %d %d %d",
+		int64(sm.totalBytesSent), int64(sm.totalBytesAcked), int64(sm.totalBytesLost), int64(sm.totalBytesSentAtLastAckedPacket),
+		int64(sm.lastAckedPacketSentTime), int64(sm.lastAckedPacketAckTime), int64(sm.lastSentPacket), int64(sm.lastAckedPacket),
+		b01(sm.isAppLimited), int64(sm.endOfAppLimitedPhase), q.EntrySlotsUsed(), int64(q.firstPacket), q.numberOfPresentEntries,
+		sm.a0Candidates.Len(),
+		int64(sm.recentAckPoints.ackPoints[0].ackTime), int64(sm.recentAckPoints.ackPoints[0].totalBytesAcked),
+		int64(sm.recentAckPoints.ackPoints[1].ackTime), int64(sm.recentAckPoints.ackPoints[1].totalBytesAcked))
+	t := sm.maxAckHeightTracker
+	fmt.Fprintf(&sb, " | %d %d %d %d", int64(t.aggregationEpochStartTime), int64(t.aggregationEpochBytes),
+		int64(t.lastSentPacketNumberBeforeEpoch), t.numAckAggregationEpochs)
+	for _, e := range t.maxAckHeightFilter.estimates {
+		fmt.Fprintf(&sb, " %d %d %d %d %d", int64(e.sample.extraAcked), int64(e.sample.bytesAcked), int64(e.sample.timeDelta),
+			uint64(e.sample.round), uint64(e.time))
+	}
+	fmt.Fprintf(&sb, " %d |", int64(sm.totalBytesAckedAfterLastAckEvent))
+	for _, e := range b.maxBandwidth.estimates {
+		fmt.Fprintf(&sb, " %d %d", uint64(e.sample), uint64(e.time))
+	}
+	return sb.String()
+}
+
+func sampleString(s *congestionEventSample) string {
+	st := s.lastPacketSendState
+	return fmt.Sprintf("%d %s %d %d %d %s %s %d %d %d %d", uint64(s.sampleMaxBandwidth), b01(s.sampleIsAppLimited), int64(s.sampleRtt),
+		int64(s.sampleMaxInflight), int64(s.extraAcked), b01(st.isValid), b01(st.isAppLimited), int64(st.totalBytesSent),
+		int64(st.totalBytesAcked), int64(st.totalBytesLost), int64(st.bytesInFlight))
+}
+
+func (c *verifBbr) sentOp(t, infl, pn, sz int64, r string) string {
+	if c.coreOnly {
+		return fmt.Sprintf("sent %d %d %d", infl, pn, c.bps())
+	}
+	return fmt.Sprintf("sent %d %d %d %d %s %d", t, infl, pn, sz, r, c.bps())
 }
 
 // bps is the float→int64 conversion inside bandwidthForPacer, recorded for the model.
@@ -321,7 +372,7 @@ func (c *verifBbr) Run(op string) vh.Result {
 			c.maxPnSent = pn
 		}
 		c.oracles(fail)
-		return vh.Result{Out: "ok " + c.state(), ModelOp: fmt.Sprintf("sent %d %d %d", infl, pn, c.bps()), NonTrivial: true, Oracle: c.limit(orc)}
+		return vh.Result{Out: "ok " + c.state(), ModelOp: c.sentOp(t, infl, pn, sz, f[5]), NonTrivial: true, Oracle: c.limit(orc)}
 	case "mds":
 		n, e1 := strconv.ParseInt(f[1], 10, 64)
 		if e1 != nil {
@@ -365,6 +416,7 @@ func (c *verifBbr) Run(op string) vh.Result {
 		preAcked, preLost := b.sampler.TotalBytesAcked(), b.sampler.TotalBytesLost()
 		var sample congestionEventSample
 		sampleOK := true
+		appLimPre := false
 		func() {
 			defer func() {
 				if r := recover(); r != nil {
@@ -372,7 +424,8 @@ func (c *verifBbr) Run(op string) vh.Result {
 				}
 			}()
 			cl := cloneSampler(b.sampler)
-			if congestion.ByteCount(prior) < b.getTargetCongestionWindow(1) {
+			appLimPre = congestion.ByteCount(prior) < b.getTargetCongestionWindow(1)
+			if appLimPre {
 				cl.OnAppLimited()
 			}
 			rtc := b.roundTripCount
@@ -408,17 +461,26 @@ func (c *verifBbr) Run(op string) vh.Result {
 		if rnd >= 1 {
 			rnd--
 		}
-		// positional: ev prior now acked lost | sampleValid sampleAppLimited sendStateInflight sampleRtt bytesAcked bytesLost
-		//   totalAcked excessAcked maxAckHeight bw rttMin tgtPacing tgt1 tgtCwnd growthTarget lossThresh targetRate rnd bps
-		mop := fmt.Sprintf("ev %d %d %s %s %s %s %d %s %d %d %d %d %d %d %d %d %d %d %d %d %d %d %d",
-			prior, now, f[4], f[5],
-			b01(sample.lastPacketSendState.isValid), b01(sample.lastPacketSendState.isAppLimited),
-			int64(sample.lastPacketSendState.bytesInFlight), srtt,
-			int64(b.sampler.TotalBytesAcked()-preAcked), int64(b.sampler.TotalBytesLost()-preLost), int64(b.sampler.TotalBytesAcked()),
-			int64(sample.extraAcked), int64(b.sampler.MaxAckHeight()), uint64(bw), rttMin,
+		// positional: ev prior now acked lost | appLimitedPre rttMin tgtPacing tgt1 tgtCwnd growthTarget lossThresh targetRate rnd bps
+		// (the sampler's outputs are no longer passed: the model computes them and they are compared below)
+		mop := fmt.Sprintf("ev %d %d %s %s %s %d %d %d %d %d %d %d %d %d",
+			prior, now, f[4], f[5], b01(appLimPre), rttMin,
 			int64(b.getTargetCongestionWindow(prePacingGain)), int64(b.getTargetCongestionWindow(1)),
 			int64(b.getTargetCongestionWindow(b.congestionWindowGain)),
 			uint64(growthTarget), int64(lossThresh), uint64(targetRate), rnd, c.bps())
+		if c.coreOnly {
+			// ev prior now acked lost | sampleValid sampleAppLimited sendStateInflight sampleRtt bytesAcked bytesLost
+			//   totalAcked excessAcked maxAckHeight bw rttMin tgtPacing tgt1 tgtCwnd growthTarget lossThresh targetRate rnd bps
+			mop = fmt.Sprintf("ev %d %d %s %s %s %s %d %s %d %d %d %d %d %d %d %d %d %d %d %d %d %d %d",
+				prior, now, f[4], f[5],
+				b01(sample.lastPacketSendState.isValid), b01(sample.lastPacketSendState.isAppLimited),
+				int64(sample.lastPacketSendState.bytesInFlight), srtt,
+				int64(b.sampler.TotalBytesAcked()-preAcked), int64(b.sampler.TotalBytesLost()-preLost), int64(b.sampler.TotalBytesAcked()),
+				int64(sample.extraAcked), int64(b.sampler.MaxAckHeight()), uint64(bw), rttMin,
+				int64(b.getTargetCongestionWindow(prePacingGain)), int64(b.getTargetCongestionWindow(1)),
+				int64(b.getTargetCongestionWindow(b.congestionWindowGain)),
+				uint64(growthTarget), int64(lossThresh), uint64(targetRate), rnd, c.bps())
+		}
 		if out == "panic" {
 			return vh.Result{Out: "panic", ModelOp: mop, Oracle: c.limit(orc)}
 		}
@@ -430,7 +492,11 @@ func (c *verifBbr) Run(op string) vh.Result {
 		}
 		c.haveEvent = true
 		c.oracles(fail)
-		return vh.Result{Out: fmt.Sprintf("ok %s %d", c.state(), c.leastUnack), ModelOp: mop, NonTrivial: true, Oracle: c.limit(orc)}
+		outLine := fmt.Sprintf("ok %s | %s %d", c.state(), sampleString(&sample), c.leastUnack)
+		if c.coreOnly {
+			outLine = fmt.Sprintf("ok %s %d", c.state(), c.leastUnack)
+		}
+		return vh.Result{Out: outLine, ModelOp: mop, NonTrivial: true, Oracle: c.limit(orc)}
 	}
 	return vh.Result{Out: "bad-op"}
 }
